@@ -1,4 +1,4 @@
-"""cnvlib/export.py (segments2vcf), skgenome/tabio/seg.py (format_seg), skgenome/rangelabel.py (to_label):
+"""cnvlib/export.py (segments2vcf), skgenome/tabio/seg.py (format_seg):
 the literals the exporters apply to coordinates and record types -> Generated/ExportConsts.lean"""
 import ast
 import os
@@ -34,9 +34,10 @@ def extract(repo, o):
     # out_dframe["start"] = segments.start.replace(0, 1)
     rep = [n for n in ast.walk(fn) if isinstance(n, ast.Call) and isinstance(n.func, ast.Attribute)
            and n.func.attr == "replace" and isinstance(n.func.value, ast.Attribute) and n.func.value.attr == "start"]
-    if len(rep) != 1:
-        raise ValueError("segments2vcf: expected one start.replace(a, b)")
-    a, b = (int(ast.literal_eval(x)) for x in rep[0].args)
+    if len(rep) > 1:
+        raise ValueError("segments2vcf: more than one start.replace(a, b)")
+    # no replacement at all is the same as replacing 0 by 0
+    a, b = (int(ast.literal_eval(x)) for x in rep[0].args) if rep else (0, 0)
     o.defn("VCF_POS_REPLACE_FROM", "Int", f"({a} : Int)", "segments2vcf: `segments.start.replace(FROM, TO)`")
     o.defn("VCF_POS_REPLACE_TO", "Int", f"({b} : Int)")
     dflt, loss = {}, {}
@@ -57,23 +58,22 @@ def extract(repo, o):
            "segments2vcf: FORMAT keys of a loss record")
     aug = [n for n in ast.walk(fn) if isinstance(n, ast.AugAssign) and isinstance(n.op, ast.Mult)
            and isinstance(n.target, ast.Subscript) and isinstance(n.target.value, ast.Name) and n.target.value.id == "svlen"]
-    if len(aug) != 1:
-        raise ValueError("segments2vcf: expected one `svlen[idx_losses] *= c`")
-    o.defn("VCF_SVLEN_LOSS_FACTOR", "Int", f"({int(ast.literal_eval(aug[0].value))} : Int)", "segments2vcf: `svlen[idx_losses] *= ...`")
+    if len(aug) > 1:
+        raise ValueError("segments2vcf: more than one `svlen[idx_losses] *= c`")
+    # no such statement is the same as multiplying by 1
+    factor = int(ast.literal_eval(aug[0].value)) if aug else 1
+    o.defn("VCF_SVLEN_LOSS_FACTOR", "Int", f"({factor} : Int)", "segments2vcf: `svlen[idx_losses] *= ...`")
     tree, src = parse(os.path.join(repo, "skgenome/tabio/seg.py"))
     fn = find_func(tree, "format_seg")
-    shifts = [(_plus_const(kw.value, "start")) for n in ast.walk(fn) if isinstance(n, ast.Call)
-              for kw in n.keywords if kw.arg == "start"]
-    if len(shifts) != 1 or shifts[0] is None:
-        raise ValueError("format_seg: expected one `start=dframe.start + c`")
-    o.defn("SEG_START_SHIFT", "Int", f"({shifts[0]} : Int)", "seg.format_seg: `start=dframe.start + ...`")
-
-    tree, src = parse(os.path.join(repo, "skgenome/rangelabel.py"))
-    fn = find_func(tree, "to_label")
-    shifts = [_plus_const(n.value, "start") for n in ast.walk(fn) if isinstance(n, ast.FormattedValue)
-              and _plus_const(n.value, "start") is not None]
-    plain = [n for n in ast.walk(fn) if isinstance(n, ast.FormattedValue) and isinstance(n.value, ast.Attribute)
-             and n.value.attr == "start"]
-    if len(shifts) + len(plain) != 1:
-        raise ValueError("to_label: start")
-    o.defn("LABEL_START_SHIFT", "Int", f"({shifts[0] if shifts else 0} : Int)", "rangelabel.to_label: `{row.start + ...}`")
+    kws = [kw.value for n in ast.walk(fn) if isinstance(n, ast.Call) for kw in n.keywords if kw.arg == "start"]
+    if len(kws) > 1:
+        raise ValueError("format_seg: more than one `start=` keyword")
+    if kws and isinstance(kws[0], ast.Attribute) and kws[0].attr == "start":
+        shift = 0  # `start=dframe.start`
+    elif kws:
+        shift = _plus_const(kws[0], "start")
+        if shift is None:
+            raise ValueError("format_seg: `start=` is not `dframe.start + c`")
+    else:
+        shift = 0  # start column passed through
+    o.defn("SEG_START_SHIFT", "Int", f"({shift} : Int)", "seg.format_seg: `start=dframe.start + ...`")
